@@ -105,8 +105,52 @@ def run(tier, seed, replay):
             nontrivial.add(json.dumps(sorted(want)) + fam)
             if len(samples) < 4 and len(nontrivial) % 50 == 1:
                 samples.append({"family": fam, "config": cfggen.to_yaml(cfg), "pairs": sorted(want)})
+    # ---- run-time half: instance identity over histories of Get / GetInContext (same context, different contexts, no context)
+    from . import rtcommon
+    rs, hs, gs = rtcommon.gen_cases(seed, "c05rt", 30 if tier == "quick" else 500, weights={"scope": 0.9, "todo": 0.0, "failing": 0.0, "decorators": 0.3},
+                                    hist_len=14, kinds=["get", "get", "getctx", "getctx", "getctx", "tagged", "taggedctx"])
+    robs, rl, ml, acc = rtcommon.run_histories(out, tooldir, env, rs, hs, "C05 instance identity", "C05")
+    import re as _re
+    ident = {"histories": len(acc), "shared_checked": 0, "nonshared_checked": 0, "contextual_checked": 0}
+    for k in acc:
+        cfg = rs[k]["cfg"]
+        seen = {}
+        for o, line in zip(hs[k], rl[k]):
+            if o["op"] not in ("get", "getctx") or not line.startswith("O("):
+                continue
+            sv = cfg["services"].get(o["name"]) or {}
+            m = _re.search(r";#(\d+)\)$", line)
+            if not m or m.group(1) == "0":
+                continue
+            ser = m.group(1)
+            sc = sv.get("scope")
+            ctx = o.get("ctx") if o["op"] == "getctx" else None
+            if sc == "shared":
+                ident["shared_checked"] += 1
+                if o["name"] in seen and seen[o["name"]] != ser:
+                    out.violation("shared-twice", "service %s is declared shared but two Gets return different instances" % o["name"], dict(common.slim(rs[k], robs[k]), history=hs[k], results=rl[k]))
+                seen[o["name"]] = ser
+            elif sc == "non_shared":
+                ident["nonshared_checked"] += 1
+                key = ("ns", o["name"])
+                if ser in seen.setdefault(key, set()):
+                    out.violation("non-shared-reused", "service %s is declared non_shared but an instance is returned twice" % o["name"], dict(common.slim(rs[k], robs[k]), history=hs[k], results=rl[k]))
+                seen[key].add(ser)
+            elif sc == "contextual":
+                ident["contextual_checked"] += 1
+                key = ("cx", o["name"])
+                owners = seen.setdefault(key, {})
+                if ser in owners and owners[ser] != ("ctx", ctx) or (ctx is None and ser in owners):
+                    out.violation("contextual-leak", "contextual service %s: one instance observed from two call trees / contexts" % o["name"], dict(common.slim(rs[k], robs[k]), history=hs[k], results=rl[k]))
+                owners[ser] = ("ctx", ctx)
+                bykey = seen.setdefault(("cxby", o["name"]), {})
+                if ctx is not None:
+                    if ctx in bykey and bykey[ctx] != ser:
+                        out.violation("contextual-not-reused", "contextual service %s: two instances inside one attached context" % o["name"], dict(common.slim(rs[k], robs[k]), history=hs[k], results=rl[k]))
+                    bykey[ctx] = ser
+    dist["identity"] = ident
     out.coverage.update({
-        "evaluations": len(specs), "distinct_nontrivial": len(nontrivial), "exhaustive": tier == "thorough",
+        "evaluations": len(specs) + sum(len(h) for h in hs), "distinct_nontrivial": len(nontrivial), "exhaustive": tier == "thorough", "programs": len(acc),
         "rule": "all 64 simple digraphs on 3 services x every assignment of {unset, shared, contextual, non_shared} containing a shared and a contextual service; tag-request and decorator edges; random larger acyclic graphs; non-trivial = at least one expected shared->contextual pair",
         "distribution": dist, "samples": samples or [{"note": "none"}],
     })
